@@ -1,6 +1,6 @@
 (* C06: liquidation only of under-margined positions, with exact payouts.  Statements only. *)
 From MP.Model Require Import Prelude U128 SInt Feed Vamm VammOps Token World Engine Runtime.
-From MP.Proofs Require Import Tactics SIntFacts EngineArith CloseFacts LiqFacts.
+From MP.Proofs Require Import Tactics SIntFacts EngineArith CloseFacts LiqFacts LiqTxFacts Scenario.
 
 (* Liquidate is accepted only if the liquidation ratio (spot/TWAP ratio, overridden by the oracle
    ratio when the spread limit is exceeded and it is higher) is not above the maintenance ratio,
@@ -35,3 +35,40 @@ Theorem C06_full_liquidation : forall w i o w' msgs swap liquidator,
   w_tok w' = w_tok w /\ w_vamms w' = w_vamms w.
 Proof. exact liquidate_reply_spec. Qed.
 Print Assumptions C06_full_liquidation.
+
+(* END TO END.  A Liquidate transaction that liquidates the position in full (nothing is left stored for the
+   trader) - swap, reply, insurance-fund draws, transfers; any fault index - pays the liquidator exactly
+   floor(floor(exchanged quote x liquidation fee ratio / D) / 2) and leaves the liquidated trader's wallet
+   exactly as it was. *)
+Theorem C06_full_liquidation_tx_pays : forall f w s v t lim funds w',
+  exec_op f w (OEngine s (ELiquidate v t lim) funds) = Ok w' ->
+  let p := read_position (w_eng w) v t in
+  0 < e_dec (ec (w_eng w)) -> 0 <= e_liqfee (ec (w_eng w)) ->
+  s <> A_ENGINE -> s <> A_IFUND -> s <> if_engine (w_if w) -> s <> e_ifund (ec (w_eng w)) ->
+  find_position (w_eng w') v t = None ->
+  exists vm vm' o, get_vamm w v = Ok vm /\
+    swap_output vm (w_env w) A_ENGINE (p_dir p) (sval (p_size p)) lim = Ok (vm', (o, sval (p_size p))) /\
+    bal (w_tok w') s = bal (w_tok w) s - funds + o * e_liqfee (ec (w_eng w)) / e_dec (ec (w_eng w)) / 2 /\
+    (t <> s -> t <> A_ENGINE -> t <> A_IFUND -> t <> if_engine (w_if w) -> t <> e_ifund (ec (w_eng w)) ->
+       bal (w_tok w') t = bal (w_tok w) t).
+Proof. exact liquidate_tx_pays. Qed.
+Print Assumptions C06_full_liquidation_tx_pays.
+
+(* non-vacuity: in the concrete scenario trader 22, made liquidatable by raising the maintenance ratio, is
+   liquidated in full by account 31, whose wallet grows *)
+Definition c06_example : bool :=
+  match scenario with
+  | Ok w =>
+      let w1 := run w [OEngine 1 (EUpdateConfig None None None (Some 900000) (Some 900000) None None) 0] in
+      match exec_op (-1) w1 (OEngine 31 (ELiquidate 11 22 0) 0) with
+      | Ok w' =>
+          (0 <? e_dec (ec (w_eng w1))) && (0 <=? e_liqfee (ec (w_eng w1))) &&
+          negb (31 =? A_ENGINE) && negb (31 =? A_IFUND) && negb (31 =? if_engine (w_if w1)) && negb (31 =? e_ifund (ec (w_eng w1))) &&
+          match find_position (w_eng w') 11 22 with None => true | Some _ => false end &&
+          (bal (w_tok w1) 31 <? bal (w_tok w') 31) && (bal (w_tok w') 22 =? bal (w_tok w1) 22)
+      | Err _ => false
+      end
+  | Err _ => false
+  end.
+Example C06_nonvacuous : c06_example = true.
+Proof. vm_compute. reflexivity. Qed.
